@@ -284,6 +284,9 @@ type Typedef struct {
 	Units       *Value `yang:"units"`
 
 	YangType *YangType `json:"-"`
+	// resolving is set while the typedef is being resolved, to catch a
+	// typedef that is (directly or indirectly) based on itself.
+	resolving bool
 }
 
 func (Typedef) Kind() string             { return "typedef" }
